@@ -223,7 +223,7 @@ static int json_number(const u8* o, unsigned w, u8* m, unsigned* nm, s32* e10, i
   else if (o[p] >= '1' && o[p] <= '9') { for (int i = 0; i < 40; i++) { if (p < w && o[p] >= '0' && o[p] <= '9') { if (*nm < 40) m[(*nm)++] = o[p]; p++; } } }
   else return 0;
   if (p < w && o[p] == '.') { p++; *has_frac_or_exp = 1; unsigned f = 0; for (int i = 0; i < 40; i++) { if (p < w && o[p] >= '0' && o[p] <= '9') { if (*nm < 40) m[(*nm)++] = o[p]; p++; f++; } } if (f == 0) return 0; *e10 -= (s32)f; }
-  if (p < w && (o[p] == 'e' || o[p] == 'E')) { p++; *has_frac_or_exp = 1; int neg = 0; if (p < w && (o[p] == '+' || o[p] == '-')) { neg = o[p] == '-'; p++; } s32 x = 0; unsigned d = 0; for (int i = 0; i < 6; i++) { if (p < w && o[p] >= '0' && o[p] <= '9') { x = x * 10 + (o[p] - '0'); p++; d++; } } if (d == 0) return 0; *e10 += neg ? -x : x; }
+  if (p < w && (o[p] == 'e' || o[p] == 'E')) { p++; *has_frac_or_exp = 1; int neg = 0; if (p < w && (o[p] == '+' || o[p] == '-')) { neg = o[p] == '-'; p++; } s32 x = 0; unsigned d = 0; for (int i = 0; i < 9; i++) { if (p < w && o[p] >= '0' && o[p] <= '9') { x = x * 10 + (o[p] - '0'); p++; d++; } } if (d == 0) return 0; *e10 += neg ? -x : x; }
   return p == w;
 }
 /* normalise (digits, exponent): strip leading and trailing zeros */
@@ -259,7 +259,7 @@ INPUT_ARR(u8, IN_pb, 12) INPUT(u32, IN_dp)
 /* printf("%.*g/e/f") output grammar with decimal point dp: [-] digits [dp digits] [e [+-] digits] */
 static int printf_float(const u8* s, unsigned n, u8 dp) { unsigned p = 0; if (p < n && s[p] == '-') p++; unsigned d = 0; for (int i = 0; i < 12; i++) if (p < n && s[p] >= '0' && s[p] <= '9') { p++; d++; } if (!d) return 0;
   if (p < n && s[p] == dp) { p++; d = 0; for (int i = 0; i < 12; i++) if (p < n && s[p] >= '0' && s[p] <= '9') { p++; d++; } if (!d) return 0; }
-  if (p < n && (s[p] == 'e' || s[p] == 'E')) { p++; if (p < n && (s[p] == '+' || s[p] == '-')) p++; d = 0; for (int i = 0; i < 12; i++) if (p < n && s[p] >= '0' && s[p] <= '9') { p++; d++; } if (d < 2) return 0; }
+  if (p < n && (s[p] == 'e' || s[p] == 'E')) { p++; if (p < n && (s[p] == '+' || s[p] == '-')) p++; d = 0; for (int i = 0; i < 12; i++) if (p < n && s[p] >= '0' && s[p] <= '9') { p++; d++; } if (d < 2 || d > 4) return 0; /* printf writes at least two exponent digits and never more than four (double: three) */ }
   return p == n; }
 HARNESS(h_dump_buffer) {
   HAVOC_ARR(IN_pb, 12); HAVOC(IN_dp); ASSUME(IN_dp == '.' || IN_dp == ',' );
